@@ -30,10 +30,10 @@ def ty_matches(t, s, bind=None):
     if k == 'unk':
         return s == '[u8;%d]' % t[1]
     if k == 'id':
-        if t[1] == 'void': return s == '::std::ffi::c_void'
         b = bind(t[1]) if bind is not None else None
         if b is not None and len(b) > 1:
-            return s == 'crate::' + '::'.join(b)
+            return s == 'crate::' + '::'.join(b)        # also for a user type that is called `void` or `u32`
+        if t[1] == 'void': return s == '::std::ffi::c_void'
         if t[1] in PRIMS: return s == t[1]
         return s.startswith('crate::') and s.endswith('::' + t[1])
     return False
@@ -65,14 +65,17 @@ def generate(rng, tier):
                 f2[2] = '_' + f[2]
             c = replace_at(c, p, f2)
             if kind == 'split':
-                # move the function into a second impl block of the same type
+                # spread the functions of the block over two, three or four impl blocks of the same type
                 impl_p = p[:-1]
                 im = node_at(c, impl_p)
                 if im is not None and tag(im) == 'impl' and len(im) > 4:
-                    first = im[:3] + im[3:-1]
-                    second = im[:3] + [im[-1]]
+                    fns_ = im[3:]
+                    k = min(len(fns_), rng.choice([2, 3, 3, 4]))
+                    cuts = sorted(rng.sample(range(1, len(fns_)), k - 1)) if k > 1 else []
+                    parts = [fns_[a:b] for a, b in zip([0] + cuts, cuts + [len(fns_)])]
+                    blocks = [im[:3] + part for part in parts]
                     parent = node_at(c, impl_p[:-1])
-                    newparent = parent[:impl_p[-1]] + [first] + parent[impl_p[-1] + 1:] + [second]
+                    newparent = parent[:impl_p[-1]] + [blocks[0]] + parent[impl_p[-1] + 1:] + blocks[1:]
                     c = replace_at(c, impl_p[:-1], newparent)
             c[1] = c[1] + '-' + kind
         if r >= 0.3 and r < 0.42:
